@@ -712,7 +712,7 @@ func genSrvErr(p *prng, thorough bool, w *bufio.Writer) {
 	}
 	for c := 0; c < rounds; c++ {
 		mcs := 3 + p.intn(4)
-		g.newConn(mcs, 0, 1000)
+		g.newConn(mcs, 0, 4000) // above the largest body randRequest produces
 		g.settings()
 		var parked []uint32
 		for i := 0; i < 2+p.intn(6); i++ {
@@ -723,7 +723,7 @@ func genSrvErr(p *prng, thorough bool, w *bufio.Writer) {
 			}
 			sid := g.sid()
 			if p.chance(2, 5) {
-				kind := p.intn(11)
+				kind := p.intn(10)
 				g.line("#offence %d %d", kind, sid)
 				if g.offence(kind, sid) {
 					parked = append(parked, sid)
@@ -820,7 +820,12 @@ func genSrvGoAway(p *prng, thorough bool, w *bufio.Writer) {
 	}
 	for c := 0; c < rounds; c++ {
 		g.newConn(6, 0, 0)
-		g.settings()
+		small := p.chance(1, 3) // responses blocked by flow control when the offence happens
+		if small {
+			g.settings(4, 10)
+		} else {
+			g.settings()
+		}
 		var parked []uint32
 		before := p.intn(4)
 		for i := 0; i < before; i++ {
@@ -852,6 +857,18 @@ func genSrvGoAway(p *prng, thorough bool, w *bufio.Writer) {
 		}
 		for _, sid := range parked {
 			g.done(sid, g.randResp())
+		}
+		if small {
+			// the promised streams finish only now, through a connection-level frame
+			if p.chance(1, 2) {
+				g.settings(4, 1<<20)
+			} else {
+				for _, sid := range parked {
+					g.windowUpdate(sid, 1<<20)
+				}
+				g.settings(4, 1<<20)
+			}
+			g.windowUpdate(0, 1<<20)
 		}
 		g.ping(4)
 	}
